@@ -160,6 +160,7 @@ class SimStreambuf : public std::streambuf {
       n = s_.size() - pos;
     buf_.assign(s_.data() + pos, n);
     chunkStart_ = pos;
+    count("fault.stream_chunk_delivered");
     setg(&buf_[0], &buf_[0], &buf_[0] + n);
     return traits_type::to_int_type(buf_[0]);
   }
